@@ -8,7 +8,7 @@ PROP = {
         "emit_core::value::{Value::{capture_display, from_display, capture_debug, from_debug, from_any, cast, by_ref}, FromValue for the primitives}, Event::erase",
     ],
     "bounds": "every value of u8, i32, u64, i64, u128, i128 (thorough: i8, u16, i16, u32), bool, every f64 bit pattern, strings from {empty, x, U+00E9 y}; "
-              "capture modes default / as_value / as_display / as_debug / optional; read paths: direct, type-erased event, borrowed value",
+              "capture modes default / as_value / optional (as_display / as_debug: the harness exists but does not finish, not registered); read paths: direct, type-erased event, borrowed value",
     "outside": "serde/sval capture modes and 'any serializer sees what the original value would have produced' (third-party serializer stacks: value-bag bridging, "
                "sval_serde, serde_json, sval_json - not encodable within reach); error capture with source chains, owned/shared values and buffering in the "
                "thread-local context (need std: Value drop glue does not fit, DESIGN.md section 3); number formatting inside display mode",
